@@ -206,6 +206,8 @@ def rule_trunc(ctx):
                 gvars.append(st.targets[0].id)
         gvar = ', '.join(gvars) or None
         for r in [n for n in gcfg.stmt_nodes() if n.kind == 'raisestmt']:
+            if any(isinstance(a, ast.ExceptHandler) for a in ancestors(r.ast, g.node)):
+                continue   # conversion of an exception of the read call itself, not a classification of its result
             deps = []
             work = [r]
             seen = set()
